@@ -114,8 +114,8 @@ class Harnessed(object):
         self.lib = lib
         self.env = env
         self.p = parser or lib.Parser(debug=debug)
-        self.events = []
-        self.calls = []
+        self.frames = []      # one [events, calls] frame per parse call in progress (re-entrancy)
+        self.hooks = {}       # optional: kind -> callable(harnessed, payload) run inside the listener
         from hotxlfp.formulas import error as xlerror
         self.xlerror = xlerror
         p = self.p
@@ -131,6 +131,8 @@ class Harnessed(object):
     def custom(self, name, c):
         def fn(*args):
             self.calls.append({'name': name, 'args': [enc(a) for a in args]})
+            if 'call:' + name in self.hooks:
+                self.hooks['call:' + name](self, args)
             m = c['mode']
             if m == 'const':
                 return dec(c['v'])
@@ -147,8 +149,21 @@ class Harnessed(object):
         return {'label': cps(c.label), 'row': row.index, 'col': col.index,
                 'rabs': bool(row.is_absolute), 'cabs': bool(col.is_absolute)}
 
+    @property
+    def events(self):
+        return self.frames[-1][0]
+
+    @property
+    def calls(self):
+        return self.frames[-1][1]
+
+    def hook(self, kind, payload):
+        if kind in self.hooks:
+            self.hooks[kind](self, payload)
+
     def on_cell(self, c, setter):
         self.events.append({'k': 'cell', 'c': self.cellrec(c)})
+        self.hook('cell', c.label)
         key = cps(plain_key(c.label))
         for s in self.env['cellsets']:
             if s['key'] == key:
@@ -157,6 +172,7 @@ class Harnessed(object):
 
     def on_range(self, a, b, setter):
         self.events.append({'k': 'range', 's': self.cellrec(a), 'e': self.cellrec(b)})
+        self.hook('range', a.label)
         key = cps(plain_key(a.label) + ':' + plain_key(b.label))
         for s in self.env['rangesets']:
             if s['key'] == key:
@@ -165,6 +181,7 @@ class Harnessed(object):
 
     def on_var(self, name, setter):
         self.events.append({'k': 'var', 'name': name})
+        self.hook('var', name)
         for s in self.env['varsets']:
             if s['key'] == name:
                 for v in s['vals']:
@@ -172,13 +189,17 @@ class Harnessed(object):
 
     def on_fn(self, name, args, setter):
         self.events.append({'k': 'fn', 'name': name, 'args': [enc(a) for a in args]})
+        self.hook('fn', name)
         for s in self.env['fnsets']:
             if s['key'] == name:
                 for v in s['vals']:
                     setter(dec(v))
 
     def parse(self, text):
-        self.events = []
-        self.calls = []
-        rec = self.p.parse(text)
-        return {'out': outcome(rec), 'events': self.events, 'calls': self.calls}
+        self.frames.append([[], []])
+        try:
+            rec = self.p.parse(text)
+            ev, calls = self.frames[-1]
+        finally:
+            self.frames.pop()
+        return {'out': outcome(rec), 'events': ev, 'calls': calls}
